@@ -13,8 +13,9 @@ import vlib
 import progs
 import specdiff
 
-THEOREM_MODULES = ["Yarel.Props.C07"]
-REQUIRED_THEOREMS = ["copy_down_is_nearest", "rebinding_irrelevant", "fields_first", "invoke_eq_get_call", "bound_keeps_receiver",
+THEOREM_MODULES = ["Yarel.Props.C07", "Yarel.Props.SpecClasses"]
+REQUIRED_THEOREMS = ["field_shadows_method_invoke", "field_shadows_method_get", "invoke_calls_class_method", "get_binds_class_method",
+                     "bound_call_eq_invoke", "missing_member_is_attribute_error", "copy_down_is_nearest", "rebinding_irrelevant", "fields_first", "invoke_eq_get_call", "bound_keeps_receiver",
                      "super_static", "static_self", "ctor_returns_instance", "errors_classified"]
 LEVEL = "proof"
 ASSUMPTIONS = [
